@@ -7,7 +7,8 @@
    Part 3: lexable events give canonical tokens; safe events are lexable.
    Part 4: tok_nest / tok_safe / drop_sp_attr over toks_of.
    Part 5: a lexability theorem for the renderer's events beyond the safe case.
-   Part 6: the byte-level statements about `html` (C02, C10, C18). *)
+   Part 6: the byte-level statements about `html` (C02, C10, C18).
+   Part 7: strictness of the lexer: whatever it accepts prints back to the input. *)
 From Coq Require Import List NArith Bool Lia Strings.String.
 From V Require Import Base.Bytes Base.Res Gen.Scanners Model.Escape Model.Ast Model.Html
   Spec.EscapeSpec Spec.HtmlSpec Spec.Shape Proofs.EscapeProofs Proofs.HtmlSafe Proofs.HtmlNest Proofs.HtmlSp.
@@ -1381,4 +1382,111 @@ Lemma c10_bytes_without_raw_clause_refuted :
 Proof.
   intro H. specialize (H (fun b => b) o_unsafe_plain raw_div_tree _ eq_refl eq_refl eq_refl eq_refl).
   vm_compute in H. discriminate H.
+Qed.
+
+(* ------------------------------------------------------------------ Part 7 *)
+(* the lexer is strict: whatever it accepts prints back to the input byte for byte (so
+   relex_identity holds on every input that lexes), for EVERY byte string *)
+Lemma span_sound (p : byte -> bool) : forall s a t, span p s = (a, t) -> s = a ++ t.
+Proof.
+  induction s as [|b r IH]; intros a t H; cbn [span] in H.
+  - injection H as <- <-. reflexivity.
+  - destruct (p b).
+    + destruct (span p r) as [a' t'] eqn:E. injection H as <- <-. rewrite (IH a' t' eq_refl). reflexivity.
+    + injection H as <- <-. reflexivity.
+Qed.
+
+Lemma lex_value_sound : forall s v t, lex_value s = Some (v, t) -> s = v ++ x22 :: t.
+Proof.
+  induction s as [|b r IH]; intros v t H; cbn [lex_value] in H; [discriminate H|].
+  destruct (beqb b x22) eqn:Q.
+  - apply beqb_eq in Q. subst b. injection H as <- <-. reflexivity.
+  - destruct (beqb b x3c || beqb b x3e); [discriminate H|].
+    destruct (lex_value r) as [[v' t']|] eqn:E; [|discriminate H].
+    injection H as <- <-. rewrite (IH v' t' eq_refl). reflexivity.
+Qed.
+
+Lemma lta_sound : forall fuel s acc attrs void rest,
+  lex_tag_attrs fuel s acc = Some (attrs, void, rest) ->
+  exists a, attrs = rev acc ++ a /\ s = flat_map tok_attr_bytes a ++ tag_end void ++ rest.
+Proof.
+  induction fuel as [|f IH]; intros s acc attrs void rest H; cbn [lex_tag_attrs] in H; [discriminate H|].
+  destruct s as [|c r]; [discriminate H|].
+  destruct (beqb c x3e) eqn:C1.
+  { apply beqb_eq in C1. subst c. injection H as <- <- <-. exists []. rewrite app_nil_r. split; reflexivity. }
+  destruct (beqb c x20) eqn:C2; [|discriminate H]. apply beqb_eq in C2. subst c.
+  destruct r as [|d r']; [discriminate H|].
+  destruct (beqb d x2f) eqn:D1.
+  { apply beqb_eq in D1. subst d. destruct r' as [|e r'']; [discriminate H|].
+    destruct (beqb e x3e) eqn:E1; [|discriminate H]. apply beqb_eq in E1. subst e.
+    injection H as <- <- <-. exists []. rewrite app_nil_r. split; reflexivity. }
+  destruct (span attrname_byte (d :: r')) as [n t] eqn:SP.
+  apply span_sound in SP. rewrite SP.
+  destruct n as [|n0 n']; [discriminate H|].
+  assert (forall at' , lex_tag_attrs f t ((n0 :: n', None) :: acc) = Some (at', void, rest) ->
+          exists a, at' = rev acc ++ a /\
+                    x20 :: (n0 :: n') ++ t = flat_map tok_attr_bytes a ++ tag_end void ++ rest) as Bare.
+  { intros at' H'. destruct (IH _ _ _ _ _ H') as (a & -> & ->).
+    exists ((n0 :: n', None) :: a). cbn [rev]. rewrite <- app_assoc. split; [reflexivity|].
+    cbn [flat_map tok_attr_bytes]. rewrite <- !app_assoc. reflexivity. }
+  destruct t as [|e [|q t']]; try (apply Bare; exact H).
+  destruct (beqb e x3d) eqn:E1; [|apply Bare; exact H].
+  apply beqb_eq in E1. subst e.
+  destruct (beqb q x22) eqn:Q1; [|discriminate H]. apply beqb_eq in Q1. subst q.
+  destruct (lex_value t') as [[v t'']|] eqn:LV; [|discriminate H].
+  apply lex_value_sound in LV. subst t'.
+  destruct (IH _ _ _ _ _ H) as (a & -> & ->).
+  exists ((n0 :: n', Some v) :: a). cbn [rev]. rewrite <- app_assoc. split; [reflexivity|].
+  cbn [flat_map tok_attr_bytes]. rewrite <- !app_assoc. reflexivity.
+Qed.
+
+Lemma skipn_starts_with : forall p s, starts_with s p = true -> s = p ++ skipn (List.length p) s.
+Proof.
+  induction p as [|y p IH]; intros s H; [reflexivity|].
+  destruct s as [|x s]; [discriminate H|]. cbn [starts_with] in H.
+  apply andb_true_iff in H. destruct H as [H1 H2]. apply beqb_eq in H1. subst y.
+  cbn [List.length skipn app]. rewrite <- (IH s H2). reflexivity.
+Qed.
+
+Lemma html_lex_go_sound : forall fuel s acc ts,
+  html_lex_go fuel s acc = Some ts -> exists ts', ts = rev acc ++ ts' /\ flat_map tok_bytes ts' = s.
+Proof.
+  induction fuel as [|f IH]; intros s acc ts H; cbn [html_lex_go] in H; [discriminate H|].
+  destruct s as [|c r].
+  { injection H as <-. exists []. rewrite app_nil_r. split; reflexivity. }
+  assert (forall k rest, html_lex_go f rest (k :: acc) = Some ts -> tok_bytes k ++ rest = c :: r ->
+          exists ts', ts = rev acc ++ ts' /\ flat_map tok_bytes ts' = c :: r) as Step.
+  { intros k rest H' E. destruct (IH _ _ _ H') as (ts' & -> & <-).
+    exists (k :: ts'). cbn [rev]. rewrite <- app_assoc. split; [reflexivity|]. exact E. }
+  destruct (beqb c x3c) eqn:C1.
+  - apply beqb_eq in C1. subst c.
+    destruct (starts_with (x3c :: r) omitted) eqn:OM.
+    { apply (Step TCmt _ H). cbn [tok_bytes]. symmetry. apply skipn_starts_with, OM. }
+    destruct r as [|d r']; [discriminate H|].
+    destruct (beqb d x2f) eqn:D1.
+    + apply beqb_eq in D1. subst d.
+      destruct (span tag_byte r') as [n t] eqn:SP. apply span_sound in SP. subst r'.
+      destruct n as [|n0 n']; [discriminate H|]. destruct t as [|e t']; [discriminate H|].
+      destruct (beqb e x3e) eqn:E1; [|discriminate H]. apply beqb_eq in E1. subst e.
+      apply (Step (TClose (n0 :: n')) _ H). cbn [tok_bytes]. rewrite <- !app_assoc. reflexivity.
+    + destruct (span tag_byte (d :: r')) as [n t] eqn:SP. apply span_sound in SP. rewrite SP in Step |- *.
+      destruct n as [|n0 n']; [discriminate H|].
+      destruct (lex_tag_attrs (S (List.length t)) t []) as [[[attrs void] t']|] eqn:LT; [|discriminate H].
+      destruct (lta_sound _ _ _ _ _ _ LT) as (a & -> & ->). cbn [rev app] in H.
+      destruct void.
+      * apply (Step (TVoid (n0 :: n') a) _ H). cbn [tok_bytes tag_end]. rewrite <- !app_assoc. reflexivity.
+      * apply (Step (TOpen (n0 :: n') a) _ H). cbn [tok_bytes tag_end]. rewrite <- !app_assoc. reflexivity.
+  - destruct (span (fun b => negb (beqb b x3c)) (c :: r)) as [txt t] eqn:SP.
+    apply span_sound in SP. apply (Step (TText txt) _ H). cbn [tok_bytes]. symmetry. exact SP.
+Qed.
+
+Theorem html_lex_sound s ts : html_lex s = Some ts -> flat_map tok_bytes ts = s.
+Proof.
+  unfold html_lex. intro H. destruct (html_lex_go_sound _ _ _ _ H) as (ts' & -> & E). exact E.
+Qed.
+
+Corollary relex_identity_of_lex s : relex_identity s = match html_lex s with Some _ => true | None => false end.
+Proof.
+  unfold relex_identity. destruct (html_lex s) as [ts|] eqn:E; [|reflexivity].
+  apply bytes_eqb_eq, html_lex_sound, E.
 Qed.
